@@ -85,11 +85,12 @@ CHECKS = {
         "level": "other",
         "ref": "DESIGN.md §5 C15",
         "technique": "may-panic census over the call graph (class-hierarchy analysis) with dominating-guard discharge and a "
-                     "hand-audited triage table; progress-guard and provenance rules by path simulation",
+                     "hand-audited triage table; progress-guard and provenance rules by path simulation; one loop invariant by "
+                     "abstract interpretation; type-graph rule for recursive drop glue",
         "text": "Every panic-capable construct in the runtime crate that is reachable from the public API is enumerated from "
                 "MIR and must be class-discharged, discharged by a dominating guard on the same terms, or match an exact row "
                 "of the audited triage table; plus progress guards of the retry loops, char-boundary provenance of lexer "
-                "offsets, layout-parser constants, GSS index validity, that generated actions() never hands out Action::Error and generated recognisers contain no unwrap/expect, that every Input::slice range is ordered by construction, that the GLR driver does not call the recursive forest traversals, and that no function reachable from parse() drops a value owning a recursive tree type with compiler-generated drop glue (type graph from the ADT table + Drop terminators; the SPPF is a known finding: stack overflow on long erroneous GLR inputs)."
+                "offsets, layout-parser constants, GSS index validity, that generated actions() never hands out Action::Error and generated recognisers contain no unwrap/expect, that every Input::slice range is ordered by construction, that the GLR driver does not call the recursive forest traversals, and that no function reachable from parse() drops a value owning a recursive tree type with compiler-generated drop glue (type graph from the ADT table + Drop terminators; the SPPF is a known finding: stack overflow on long erroneous GLR inputs), that an empty match is turned away before it can be shifted (existence rule; known finding: none is), and - by a disjunctive abstract interpretation of Vec emptiness over the CFG (rules/absint.py) - that GlrParser::make_error is never handed an empty frontier base."
                 " A new unwrap/index/slice/arith site or a removed "
                 "guard is reported with its call site. Totality is decided modulo the listed invariants; termination of the "
                 "main loops is not decided.",
